@@ -21,3 +21,12 @@ func (d *DataChannel) VerifReadLoopStarted() bool {
 
 	return d.readLoopActive != nil
 }
+
+// VerifHaveDataChannel reports whether handleOpen has attached the underlying
+// pion/datachannel (d.dataChannel != nil).
+func (d *DataChannel) VerifHaveDataChannel() bool {
+	d.mu.RLock()
+	defer d.mu.RUnlock()
+
+	return d.dataChannel != nil
+}
